@@ -7,6 +7,13 @@ from contracts.common import *  # noqa
 from contracts import common
 from pyvc.engine import BUILTINS, Path
 
+
+def pick(eng, options, name):
+    for o in options[:-1]:
+        if eng.branch(eng.fresh_bool("%s_is_%s" % (name, o))):
+            return o
+    return options[-1]
+
 INT = BUILTINS["int"]
 BYT = BUILTINS["bytes"]
 
@@ -587,6 +594,70 @@ result = dict(want=want, got=got, early=repr(early), ok=(got == want and (early 
     return dict(jobs=jobs, observed=r, reproduced=isinstance(r, dict) and r.get("ok") is False)
 
 
+def unit_poly_mul_deferred(eng, which, shape):
+    """a polynomial times a value that is still pending (p * y, y * p, y * z): the product is awaited later; once every variable is known it is
+    V(p) * sigma(y) - the polynomial's variables are not dropped, whichever factor is known first"""
+    name = "LinearPolynomial[%s,%s]" % (which, shape)
+
+    def run(eng):
+        real(eng)
+        vs = [poly_var(eng, "x%d" % i)[0] for i in range(3)]
+        y, sy = poly_var(eng, "y")
+        p = mk_poly(eng, [vs[i] for i in shape], "p")
+        pv = poly_value(eng, p)
+        M = ast.Mult()
+        if which == "p*y":
+            r, want = eng.binop(M, p, y), pv * sy
+        elif which == "y*p":
+            r, want = eng.binop(M, y, p), sy * pv
+        else:
+            r, want = eng.binop(M, y, vs[0]), sy * vs[0].attrs["_sigma"]
+        order = pick(eng, ["poly-variables-first", "y-first"], "settle_order")
+        todo = ([y] + vs) if order == "y-first" else (vs + [y])
+        for v in todo:
+            eng.call(eng.getattr(v, "settle"), [v.attrs["_sigma"]], {})
+        eng.I["want"] = want
+        return eng.call(dcls(eng, "wait"), [r], {})
+
+    def post(eng, o):
+        eng.prove("no-exception", o[0] == "return")
+        if o[0] == "return":
+            eng.prove("product-of-the-final-values:V(p)*sigma(y)(no variable of the polynomial is dropped)", o[1] == eng.I["want"])
+        eng.prove("module-state-restored", module_state(eng) == (0, 0))
+    r = verify(eng, name, run, post, func="deferred.LinearPolynomial.__mul__ / BaseDeferred.__mul__")
+    for o_ in r["obligations"]:
+        o_["cfg"] = dict(kind="poly-mul", which=which, shape=list(shape))
+    return r
+
+
+def replay_poly_mul(cfg, witness, tree):
+    from pyvc import driver
+    w = {k: int(v) for k, v in (witness or {}).items() if isinstance(v, (int, str)) and str(v).lstrip("-").isdigit()}
+    code = """
+from pdpy11.deferred import Promise, LinearPolynomial, wait
+w = %r
+g = lambda k, d=2: w.get(k, d)
+xs = [Promise[int]("x%%d" %% i) for i in range(3)]
+y = Promise[int]("y")
+shape = %r
+p = LinearPolynomial[int]({xs[i]: (g("p_c%%d" %% n) or 1) for n, i in enumerate(shape)}, g("p_k", 1))
+sig = [g("sigma_x%%d" %% i, 3 + i) for i in range(3)]
+sy = g("sigma_y", 5)
+pv = p.constant_term + sum(c * sig[xs.index(k)] for k, c in p.coeffs.items())
+which = %r
+r = p * y if which == "p*y" else y * p if which == "y*p" else y * xs[0]
+want = pv * sy if which != "y*z" else sy * sig[0]
+for x, s in zip(xs, sig): x.settle(s)
+y.settle(sy)
+got = wait(r)
+result = dict(want=want, got=got, ok=(got == want))
+""" % (w, list(cfg["shape"]), cfg["which"])
+    jobs = [dict(kind="py", code=code)]
+    r = driver.native(jobs, tree)[0]
+    r = r.get("result") or r
+    return dict(jobs=jobs, observed=r, reproduced=isinstance(r, dict) and r.get("ok") is False)
+
+
 def unit_promise(eng):
     out = []
 
@@ -653,4 +724,7 @@ def all_units():
             us.append(("poly-wait-nested[%s,%s]" % (sh, st), "unit_poly_wait_nested", dict(shape=sh, settled=st)))
     for sh in SELFREF_SHAPES:
         us.append(("poly-wait-selfref[%s]" % sh, "unit_poly_wait_selfref", dict(shape=sh)))
+    for w_ in ("p*y", "y*p", "y*z"):
+        for sh in ((), (0,), (0, 1)):
+            us.append(("poly[%s,%s]" % (w_, sh), "unit_poly_mul_deferred", dict(which=w_, shape=sh)))
     return us
